@@ -12,7 +12,7 @@ N_THOROUGH = 6000
 THOROUGH_EXHAUSTIVE = True
 RULE = ('cases = corpus + random (data 0..48 bytes, Content-Length below/equal/above the data and negative, '
         'buffer 1..12, fragmentation schedules of short reads, early EOF, optional max_body_size), run through '
-        '_body_read directly and through Request.body (read twice, again through request.copy() after a partial read, again after a header is rewritten through Request.__setitem__ following a partial read, and with WSGI extension flags / unrelated headers / other verbs in the environ: wsgi.input_terminated, Transfer-Encoding: identity, Expect, PUT/GET, HTTP/1.0, json/form content types), a fifth of them with a multipart Content-Type (closing delimiter + epilogue: the markup is fed while buffering); a seventh of the cases are op sequences on the family of request objects descending from one request by copy() (model/ReqBody.v: body.read(k), copy(), rewrites of Content-Length and of other headers, a new wsgi.input) compared output by output and stream by stream; thorough adds every schedule of length <= 5 over read '
+        '_body_read directly and through Request.body (read twice, again through request.copy() after a partial read, again after a header is rewritten through Request.__setitem__ following a partial read, with wsgi.input a real io.BytesIO (recording subclass) holding more than the body or with a consumed prefix, and with WSGI extension flags / unrelated headers / other verbs in the environ: wsgi.input_terminated, Transfer-Encoding: identity, Expect, PUT/GET, HTTP/1.0, json/form content types), a fifth of them with a multipart Content-Type (closing delimiter + epilogue: the markup is fed while buffering); a seventh of the cases are op sequences on the family of request objects descending from one request by copy() (model/ReqBody.v: body.read(k), copy(), rewrites of Content-Length and of other headers, a new wsgi.input) compared output by output and stream by stream; thorough adds every schedule of length <= 5 over read '
         'caps {1,2,3,full} x body sizes 0..10 x buffers 1..4 x CL in {len-1,len,len+2} (exhaustive). '
         'non-trivial = at least two reads were issued and at least one of them was short or the body spilled; '
         'distinct by (len, cl, buf, schedule prefix actually consumed, via)')
@@ -20,6 +20,31 @@ TRUSTED = ['modelled, not verified: the OS temporary file behind the spilled bod
            'checked by the correspondence only); wsgi.input is modelled as coq/model/Stream.v (read returns '
            'b"" only at end of data)']
 ASSUMPTIONS = ['buffer size (max_memfile_size) > 0', 'wsgi.input.read(n) returns at most n bytes and b"" only at EOF']
+
+
+class RecBytesIO(BytesIO):
+    """a real io.BytesIO as wsgi.input (servers and test clients hand over buffered bodies this way), recording
+    the reads issued on it; `pre` bytes were consumed before the request object saw it (pipelining)"""
+
+    def __init__(self, data, pre):
+        super().__init__(bytes(data))
+        BytesIO.read(self, pre)
+        self.base = pre
+        self.log = []
+
+    def read(self, n=-1):
+        p = self.tell()
+        if n is None or n < 0:
+            n = len(self.getvalue()) - p
+        self.log.append([n, p - self.base])
+        return super().read(n)
+
+    def readline(self, *a):
+        raise AssertionError('readline not expected')
+
+    @property
+    def pos(self):
+        return self.tell() - self.base
 
 
 MP_BODY = b'--B\r\nContent-Disposition: form-data; name="a"\r\n\r\nv\r\n--B--'
@@ -52,6 +77,12 @@ def corpus():
         # the application rewrites a header after reading part of the body: the body stays what it was
         dict(data=d20, cl=20, buf=8, sched=[], maxb=None, via='request', reheader=('ctype', 5)),
         dict(data=d20, cl=20, buf=64, sched=[3], maxb=None, via='request', reheader=('same_cl', 20)),
+        # wsgi.input is a real io.BytesIO holding MORE than the body / with a consumed prefix
+        dict(data=list(range(30)), cl=7, buf=64, sched=[], maxb=None, via='request', bytesio=0),
+        dict(data=list(range(30)), cl=7, buf=3, sched=[], maxb=None, via='request', bytesio=4),
+        dict(data=list(range(30)), cl=0, buf=8, sched=[], maxb=None, via='request', bytesio=2),
+        dict(data=list(range(9)), cl=9, buf=64, sched=[], maxb=None, via='request', bytesio=0, copy_after=3),
+        dict(data=list(range(30)), cl=12, buf=8, sched=[], maxb=None, via='func', bytesio=3),
         # op sequences on the family of request objects descending from one request by copy()
         # (model/ReqBody.v): ('body', r, k|None) ('copy', r) ('setcl', r, v) ('setother', r, which) ('setinput', r, data, sched)
         dict(data=list(range(1, 8)), cl=5, buf=3, sched=[0, 1], maxb=None, via='ops',
@@ -103,6 +134,10 @@ def gen(rng, n):
             case['extra'] = rng.choice(EXTRAS)
         if case['via'] == 'request' and rng.random() < 0.25:
             case['reheader'] = (rng.choice(REHEADERS), rng.choice([0, 1, 3, ln, ln + 5]))
+        if rng.random() < 0.12:
+            # wsgi.input is a real io.BytesIO (recording subclass), possibly with a consumed prefix; full reads
+            case['bytesio'] = rng.choice([0, 0, 1, 5])
+            case['sched'] = []
         if rng.random() < 0.2:
             # a multipart body (markup is fed while buffering): closing delimiter followed by an epilogue
             ep = bytes(rng.choice([13, 10, 45, 66, 120]) for _ in range(rng.randrange(0, 12)))
@@ -112,6 +147,8 @@ def gen(rng, n):
             case['cl'] = len(body) if rng.random() < 0.7 else max(0, len(body) + rng.randrange(-6, 6))
             if rng.random() < 0.5:
                 case['sched'] = [rng.choice([0, 1, 2, len(MP_BODY) - 1, len(MP_BODY), 40]) for _ in range(rng.randrange(1, 80))]
+        if case.get('bytesio') is not None:
+            case['sched'] = []
         yield case
 
 
@@ -226,7 +263,12 @@ def run_impl(case):
     from ombott import Request, HTTPError
     if case['via'] == 'ops':
         return _run_ops(case)
-    st = FragStream(case['data'], case['sched'])
+    if case.get('bytesio') is not None:
+        # the stream the model sees starts behind the consumed prefix; full reads
+        pre = case['bytesio']
+        st = RecBytesIO(bytes(range(65, 65 + pre)) + bytes(case['data']), pre)
+    else:
+        st = FragStream(case['data'], case['sched'])
     if case['via'] == 'func':
         try:
             markup = None
@@ -438,7 +480,7 @@ def key(case):
         return ('ops', len(case['data']), case['cl'], case['buf'], tuple(case['sched'][:8]),
                 tuple(tuple(map(lambda v: tuple(v) if isinstance(v, list) else v, o)) for o in case['ops']))
     return (len(case['data']), case['cl'], case['buf'], tuple(case['sched'][:8]), case['via'], case['maxb'],
-            bool(case.get('mp')), case.get('copy_after'), case.get('extra'), case.get('reheader'))
+            bool(case.get('mp')), case.get('copy_after'), case.get('extra'), case.get('reheader'), case.get('bytesio'))
 
 
 def classify(case, obs):
@@ -450,7 +492,7 @@ def classify(case, obs):
     ln, cl = len(case['data']), case['cl']
     rel = 'cl<0' if cl < 0 else 'cl=len' if cl == ln else 'cl<len' if cl < ln else 'cl>len(early EOF)'
     return '%s%s%s%s/%s/%s/%s' % (case['via'], '+multipart' if case.get('mp') else '',
-                                  '+env:' + case['extra'] if case.get('extra') else '',
+                                  ('+env:' + case['extra'] if case.get('extra') else '') + ('+BytesIO' if case.get('bytesio') is not None else ''),
                                   '+rewrite:' + case['reheader'][0] if case.get('reheader') else '', rel,
                                   'sched' if case['sched'] else 'full-reads', obs.get('status'))
 
@@ -483,7 +525,7 @@ def shrink(case):
         yield dict(case, cl=case['cl'] - 1)
     if case['maxb'] is not None:
         yield dict(case, maxb=None)
-    for k in ('copy_after', 'extra', 'reheader', 'mp'):
+    for k in ('copy_after', 'extra', 'reheader', 'mp', 'bytesio'):
         if case.get(k) is not None:
             c = dict(case); c.pop(k); yield c
     if case['via'] != 'func' and not (case.get('extra') or case.get('reheader') or case.get('copy_after') is not None):
